@@ -46,6 +46,7 @@ class Check:
         self.notes = []
         self.assumptions = []
         self.counts = {}        # instance counters (rule -> n)
+        self._vcounts = {}
         self.analysed = {}
         self.explanation = ""
         self.trusted = []
@@ -104,6 +105,12 @@ class Check:
     def set_count(self, name, n):
         """per-variant instance count: the evidence keeps the maximum over variants"""
         self.counts[name] = max(self.counts.get(name, 0), n)
+
+    def vcount(self, variant, name, n=1):
+        """instance counter per build variant; the reported count is the minimum over the variants that counted"""
+        self._vcounts.setdefault(name, {})
+        self._vcounts[name][variant] = self._vcounts[name].get(variant, 0) + n
+        self.counts[name] = min(self._vcounts[name].values())
 
     def broken(self, msg):
         raise AnalysisBroken(msg)
